@@ -373,3 +373,34 @@ def region_of(kind, cfg, p, octets: bytes, i: int) -> str:
     if kind != "file_data" and i == hl:
         return "directive_code"
     return "params"
+
+
+# ------------------------------------------------------------ aliasing monitor
+class Isolation:
+    """Objects returned by earlier decodes must not change when later, different inputs are decoded
+    (shared placeholder objects / cached singletons show up here and nowhere else)."""
+
+    def __init__(self, size=6):
+        self.size = size
+        self.buf = []
+
+    def remember(self, obj, raw: bytes, label: str):
+        self.buf.append((obj, bytes(raw), label))
+        if len(self.buf) > self.size:
+            self.buf.pop(0)
+
+    def recheck(self, ctx, monitor, case, rng=None):
+        """Re-pack every remembered object and compare with the octets it was decoded from."""
+        for obj, raw, label in self.buf[:-1]:
+            ctx.ev(monitor)
+            try:
+                again = bytes(obj.pack())
+            except Exception as e:  # noqa: BLE001
+                ctx.fail(monitor, "earlier_decoded_object_no_longer_packs", label, case, error=repr(e), decoded_from=raw[:60])
+                self.buf = self.buf[-1:]
+                return False
+            if again != raw:
+                ctx.fail(monitor, "earlier_decoded_object_changed_by_a_later_decode", label, case, decoded_from=raw[:60], now_packs=again[:60])
+                self.buf = self.buf[-1:]
+                return False
+        return True
